@@ -1324,7 +1324,7 @@ func cmdC14(seed int64, tier, outDir string) {
 	rg := NewRng(seed)
 	sum := NewSummary("C14", seed, tier)
 	sum.Rule = "curated pool (ints around 0, +-1, +-(2^53-1), 2^53; floats +-0, +-inf, NaN, halves, neighbours of ints; strings incl. empty, prefixes, non-ASCII, astral, NUL; bools; nested lists in 4 representations; maps in 3 representations and different key orders; closures) plus random nested values and their numerically-equal twins: ALL unordered pairs x (= != < > <= >= min max switch order in both directions), ALL ordered pairs for ~, triples (exhaustive over the core subset + random) for transitivity, 3-argument min/max/order, 2-case switch, x~[y,z]; operands are rebuilt for every evaluation and passed as arguments to functions generated by value.New(). non-trivial = pair of different c14Kinds or nesting depth >= 2, membership in a non-empty list (or with a non-list left operand), triple with a<b<c or a=b=c; distinct by operand terms"
-	cw := NewCaseWriter(outDir, "From P2 Require Import Base.Prelude Sem.Num Sem.Syntax Sem.Ops Sem.OpsSpec Run.C14Run.", "c14_case", "c14_id", "(c14_im pool)", "(c14_is pool)", 4000)
+	cw := NewCaseWriter(outDir, "From P2 Require Import Base.Prelude Sem.Num Sem.Syntax Sem.Ops Sem.OpsSpec Run.C14Run.", "c14_case", "c14_id", "(c14_im pool)", "(c14_is pool)", 4500)
 	run := &c14Run{sum: sum, cw: cw, base: map[[2]int][]string{}}
 	finish := func() {
 		cw.Flush()
@@ -1680,6 +1680,9 @@ func cmdC14(seed int64, tier, outDir string) {
 			src = strs
 		}
 		idx := make([]int, 4+rg.Pick(7))
+		if t%4 == 3 { // longer than the insertion-sort limit of sort.Sort: pdqsort, judged by the checker alone
+			idx = make([]int, 13+rg.Pick(28))
+		}
 		for k := range idx {
 			idx[k] = src[rg.Pick(len(src))]
 			if rg.Chance(0.02) {
